@@ -30,6 +30,8 @@ func init() {
 			"read-only transactions read and scan the whole group (all equal); yields injected between the memtable inserts of a batch. (c) torn final write: after a run ending in a large commit " +
 			"(immediate sync, byte range of the commit observed by stat) the newest log file is cut at offsets inside that range; the reopened state must be the pre- or the post-commit state. " +
 			"(d) no trace of failure: commit after the engine was closed, rollback, buffer reuse; state before == state after, also after reopen. " +
+			"(e) every 12th case: commits that fail because of an injected I/O error (strace -e inject on fsync/write of the database files, synchronous logging, child process): the scan before close and the " +
+			"scan after a reopen must equal the model of the acknowledged units only. " +
 			"distinct = (kind, config, program/sites or offsets); non-trivial = a kill fired inside a commit / >= 1 commit overlapped an observer / >= 1 cut fell strictly inside a batch",
 		Assumptions: []string{"a plain scan (outside a transaction) that runs concurrently with a commit is not covered by the statement ('no later scan'); transactional scans are",
 			"torn writes are simulated by truncating the newest log file of a cleanly stopped database"},
@@ -50,6 +52,11 @@ func commitSite(s string) bool {
 }
 
 func runC03(c *core.Ctx, res *core.Result) {
+	if c.Idx%12 == 7 {
+		// a commit that fails because of an I/O error (strace -e inject) must leave no trace either
+		ioFaultCase(c, res, true)
+		return
+	}
 	switch c.Idx % 4 {
 	case 0, 1:
 		c03Crash(c, res)
